@@ -18,6 +18,7 @@ from ..common import Infra
 
 CFG = """SPECIFICATION Spec
 CONSTANTS
+  Order <- Ord
   Conns <- %(conns)s
   PreOpen <- %(pre)s
   Dials <- %(dials)s
@@ -28,6 +29,7 @@ CHECK_DEADLOCK FALSE
 """
 SIMCFG = """SPECIFICATION Spec
 CONSTANTS
+  Order <- Ord
   Conns <- C3
   PreOpen <- P1
   Dials <- D2
@@ -110,6 +112,21 @@ def scenarios(res, scratch, tier, seed):
     return out
 
 
+def report(res, lines, viol, byid, leg):
+    for v in viol:
+        i = v["line"] - 1
+        while i >= 0 and lines[i].get("ev") != "reset":
+            i -= 1
+        hdr = lines[i]
+        j = i + 1
+        while j < len(lines) and lines[j].get("ev") != "reset":
+            j += 1
+        sc = byid.get(hdr.get("id"), {})
+        res.report({"property": "C18", "leg": leg, "scenario": hdr.get("id"), "why": v["why"], "event": v["ev"], "kind": sc.get("kind"),
+                    "race": sc.get("race"), "stopper": sc.get("stopper"), "mode": sc.get("mode"),
+                    "script": sc, "trace": lines[i:j], "replay_key": {"id": hdr.get("id"), "why": v["why"], "steps": sc.get("steps")}})
+
+
 def run(res, scratch, *, tier, seed, replay):
     res.coverage["rule"] = ("cases = engine lives: behaviours of EngineLife.tla sampled by TLC's simulator, classified by the order of "
                             "their key actions and forced on real engines (core nbio, nbhttp non-blocking / blocking / mixed; LT/ET/"
@@ -137,6 +154,12 @@ def run(res, scratch, *, tier, seed, replay):
                      "reproduced on the pinned code and repaired")
     ov = common.make_overlay(scratch, shim=[])
     binary = common.go_build(scratch, "./cmd/stoplife", overlay=ov, name="stoplife")
+    if replay and json.load(open(replay)).get("leg") == "sim":
+        stp, sbyid = run_sim(res, scratch, tier, seed, only=json.load(open(replay))["script"])
+        sviol, sstats = common.tlc_validate(scratch, "StopMonTrace", stp, timeout=3000)
+        res.coverage["traces_validated_against_impl"] += sstats.get("scenarios", 0)
+        report(res, common.read_ndjson(stp), sviol, sbyid, "sim")
+        return
     if replay:
         scens = [json.load(open(replay))["script"]]
     else:
@@ -186,20 +209,131 @@ def run(res, scratch, *, tier, seed, replay):
     res.coverage["traces_validated_against_impl"] += stats.get("scenarios", 0)
     res.coverage["trace_events_validated"] = stats.get("events", 0)
     byid = {s["id"]: s for s in scens}
-    for v in viol:
-        i = v["line"] - 1
-        while i >= 0 and lines[i].get("ev") != "reset":
-            i -= 1
-        hdr = lines[i]
-        j = i + 1
-        while j < len(lines) and lines[j].get("ev") != "reset":
-            j += 1
-        sc = byid.get(hdr.get("id"), {})
-        res.report({"property": "C18", "scenario": hdr.get("id"), "why": v["why"], "event": v["ev"], "kind": sc.get("kind"),
-                    "race": sc.get("race"), "stopper": sc.get("stopper"), "mode": sc.get("mode"),
-                    "script": sc, "trace": lines[i:j], "replay_key": {"id": hdr.get("id"), "why": v["why"]}})
+    report(res, lines, viol, byid, "real")
+    if not replay:
+        stp, sbyid = run_sim(res, scratch, tier, seed)
+        sviol, sstats = common.tlc_validate(scratch, "StopMonTrace", stp, timeout=3000)
+        res.coverage["traces_validated_against_impl"] += sstats.get("scenarios", 0)
+        res.coverage["trace_events_validated"] += sstats.get("events", 0)
+        report(res, common.read_ndjson(stp), sviol, sbyid, "sim")
     for s in scens[:3]:
         res.sample({"scenario": s})
     if not res.violations and (stuck_driver or len(todo) > len(scens) // 10):
         raise Infra("the stoplife driver did not finish %d of %d scenarios (killed %d time(s)) and nothing that ran was rejected"
                     % (len(todo), len(scens), stuck_driver))
+
+
+# ---------------------------------------------------------------------------------------------------------
+# direction G: behaviours of EngineLife.tla replayed on the real engine under the cooperative scheduler
+# ---------------------------------------------------------------------------------------------------------
+GCFG = """SPECIFICATION Spec
+CONSTANTS
+  Order <- Ord
+  Conns <- %(conns)s
+  PreOpen <- %(pre)s
+  Dials <- %(dials)s
+  Fix <- FixAll
+INVARIANTS TypeOK AllClosedAtReturn AllNotifiedAtReturn WaitGroupDiscipline
+CHECK_DEADLOCK FALSE
+"""
+SETS = {"C2": ["c1", "c2"], "C3": ["c1", "c2", "c3"], "P1": ["c1"], "None": [], "D1": ["d1"], "D2": ["d1", "d2"]}
+
+
+GCFG_ADV = """SPECIFICATION Spec
+CONSTANTS
+  Order <- Ord
+  Conns <- %(conns)s
+  PreOpen <- %(pre)s
+  Dials <- %(dials)s
+  Fix <- %(fix)s
+CHECK_DEADLOCK FALSE
+"""
+
+
+def sim_scripts(res, scratch, tier, seed, adversarial=False):
+    """adversarial: schedules of the model with repairs switched OFF.  On the repaired code they cannot be followed (Stop
+    blocks where the old code went on): the replay drifts, which is expected and reported separately; if a repair is undone
+    they become feasible again and lead the real code into the violation."""
+    from .. import graph
+    if adversarial:
+        cfgs = [dict(conns="C2", pre="P1", dials="D1", fix=f) for f in ("FixNone", "FixNoReset", "FixAccept")]
+        cap = 150 if tier == "quick" else 1500
+    else:
+        cfgs = [dict(conns="C2", pre="P1", dials="D1"), dict(conns="C2", pre="None", dials="D1")]
+        if tier == "thorough":
+            cfgs += [dict(conns="C3", pre="P1", dials="D1"), dict(conns="C2", pre="P1", dials="D2")]
+        cap = 500 if tier == "quick" else 5000
+    scripts = []
+    for ci, c in enumerate(cfgs):
+        g, r = graph.tlc_graph(scratch, "EngineLifeMC", (GCFG_ADV if adversarial else GCFG) % c, timeout=1800)
+        if not adversarial:
+            res.add_model("enginelife-graph-%(conns)s-%(pre)s-%(dials)s" % c, r)
+        npaths = g.count_paths(limit=10 ** 9)
+        if npaths is not None and npaths <= cap:
+            paths, _ = g.all_paths(cap=cap + 1, seed=seed)
+            mode = "all %d maximal paths" % len(paths)
+        else:
+            paths = g.edge_tour(seed=seed)
+            k = max(0, cap - len(paths))
+            paths += g.random_walks(k, seed=seed)
+            mode = "edge tour (%d edges) + %d random walks of ~%s maximal paths" % (g.nedges, k, npaths)
+        res.notes.append("EngineLife graph %s%s: %s" % ("(repairs off) " if adversarial else "", c, mode))
+        seen = set()
+        for (i0, path) in paths:
+            steps, xs = [], []
+            prev = g.st(i0)
+            for (lab, dst) in path:
+                name, args = graph.label_name_args(lab)
+                st = g.st(dst)
+                arg = args[0] if args else ""
+                if name == "LAccept":
+                    arg = st["inhand"]
+                kind = ""
+                if name == "ARun":
+                    kind, arg = prev["aq"][0][0], prev["aq"][0][1]
+                steps.append({"a": name, "c": arg, "k": kind})
+                xs.append({"table": len(st["table"]["$set"]), "opened": st["opened"], "notified": st["notified"], "spc": st["spc"]})
+                prev = st
+            key = tuple((s["a"], s["c"]) for s in steps)
+            if key in seen:
+                continue
+            seen.add(key)
+            scripts.append({"id": "%s-%d#%d" % ("adv" if adversarial else "sim", ci, len(scripts)), "pre": SETS[c["pre"]],
+                            "conns": [x for x in SETS[c["conns"]] if x not in SETS[c["pre"]]],
+                            "steps": steps, "x": xs, "mode": ("LT", "ET", "OS")[len(scripts) % 3], "race": "sim", "kind": "core",
+                            "idle": 0, "writing": 0, "timers": 0})
+    return scripts
+
+
+def run_sim(res, scratch, tier, seed, only=None):
+    ov = common.make_overlay(scratch, shim=["sync@.+timer", "syscall@.", "go@.+timer"])
+    binary = common.go_build(scratch, "./cmd/stopsim", overlay=ov, name="stopsim")
+    def drive(scripts):
+        sp = scratch.fresh("simscripts") + ".ndjson"
+        common.write_ndjson(sp, scripts)
+        tp = scratch.fresh("simtrace") + ".ndjson"
+        rc, out, dt = common.run([binary, "-scripts", sp, "-trace", tp], timeout=120 + len(scripts))
+        if rc != 0:
+            raise Infra("stopsim driver failed rc=%d: %s" % (rc, out[-3000:]))
+        return tp, json.loads(out.strip().splitlines()[-1])
+    scripts = [only] if only else sim_scripts(res, scratch, tier, seed)
+    tp, summ = drive(scripts)
+    res.coverage["evaluations"] += len(scripts)
+    res.coverage["distinct_nontrivial"] += summ["interleaved"]
+    res.coverage["drift"] += summ["drift"]
+    res.coverage["sim_steps"] = summ["steps"]
+    res.coverage["sim_stuck"] = summ["stuck"]
+    if summ["drift"]:
+        res.notes.append("drift (real code left the implementation-level model; not a verdict): %s" % summ["drift_at"])
+    byid = {s["id"]: s for s in scripts}
+    if not only:
+        adv = sim_scripts(res, scratch, tier, seed, adversarial=True)
+        tp2, summ2 = drive(adv)
+        res.coverage["evaluations"] += len(adv)
+        res.coverage["adversarial_scripts"] = len(adv)
+        res.coverage["adversarial_drift"] = summ2["drift"]
+        res.coverage["sim_stuck"] += summ2["stuck"]
+        with open(tp, "a") as f, open(tp2) as f2:
+            f.write(f2.read())
+        byid.update({s["id"]: s for s in adv})
+    return tp, byid
